@@ -273,6 +273,17 @@ def rewrite_asserts(text):
         parts.append(text[o + 1 + last:c])
         op = '==' if m.group(1) == 'eq' else '!='
         text = text[:m.start()] + 'vf_runtime_assert((%s) %s (%s))' % (parts[0].strip(), op, parts[1].strip()) + text[c + 1:]
+    # panic!(..) / unreachable!(..) / unimplemented!(..) / todo!(..): a call that never returns and may only be reached in the
+    # guard reading (`requires !strict()`), exactly like `assert!(false)`
+    while True:
+        b, _ = rs.blank(text)
+        m = re.search(r'(?<![\w:])(?:(?:std|core)::)?(panic|unreachable|unimplemented|todo)!\s*([(\[{])', b)
+        if not m:
+            break
+        o = m.end() - 1
+        c = rs.match_bracket(b, o)
+        text = text[:m.start()] + 'vf_runtime_panic()' + text[c + 1:]
+        count('R3')
     while True:
         b, _ = rs.blank(text)
         m = re.search(r'\bassert!\s*\(', b)
